@@ -188,6 +188,8 @@ func selfBounded(fn *ssa.Function) bool {
 func runC05(c *Ctx, r *Report) {
 	importFoundation(c, r, "C05", "driver-options")
 	importFoundation(c, r, "C05", "read-until")
+	importFoundation(c, r, "C05", "send-input")
+	importFoundation(c, r, "C05", "get-prompt")
 	r.Rule("C05/poll-interval", "every sleep inside a polling loop of the channel and the drivers lasts a configured or constant delay, never an interval that grows from one pass to the next (the deadline is only looked at between sleeps)", 4)
 	checkPollInterval(c, r, "C05/poll-interval")
 	importFoundation(c, r, "C05", "callbacks")
